@@ -5,21 +5,17 @@
 From Ekit Require Import Common Conc LBQModel LBQProof.
 From Coq Require Import ZifyBool Arith PeanoNat.
 
-Definition wait_pc (p : lbq_pc) : bool :=
-  match p with PSig | SRes | SUnlock => true | _ => false end.
-Definition wait_region (p : lbq_pc) : bool :=
-  match p with
-  | PSig | SRes | SUnlock | SRet | PSelect | PParked | PCaseCtx | PRetErr1 | PCaseSig | PLock1 => true
-  | _ => false
-  end.
-
 Record invD (c : lbq_cfg) : Prop := {
   d_wait : forall t l, lookup t (q_thr c) = Some l -> wait_pc (l_pc l) = true -> must_wait c (l_op l) = true;
   d_act : forall t l, lookup t (q_thr c) = Some l -> l_pc l = PAct -> must_wait c (l_op l) = false;
   d_old : forall t l, lookup t (q_thr c) = Some l -> l_pc l = BSet -> l_old l = cur c (bcond (l_op l));
   d_cap : 0 < q_max c -> qlen c <= q_max c;
-  d_res : forall t l, lookup t (q_thr c) = Some l -> after_lin (l_op l) (l_pc l) = true -> is_qop (l_op l) = true ->
-          match l_op l with OEnq _ => l_res l = RNil | _ => exists x, l_res l = RVal x end;
+  d_res : forall t l, lookup t (q_thr c) = Some l -> after_lin (l_op l) (l_pc l) = true ->
+          match l_op l with
+          | OEnq _ => l_res l = RNil
+          | ODeq => exists x, l_res l = RVal x
+          | _ => exists s, l_res l = RSlice s
+          end;
   (* only a bounded queue makes an Enqueue wait *)
   d_bounded : forall t l, lookup t (q_thr c) = Some l -> wait_region (l_pc l) = true ->
               match l_op l with OEnq _ => 0 < q_max c | _ => True end
@@ -97,12 +93,14 @@ Proof.
   - (* Append: the loop condition was false and the bound held *)
     intros Hm. pose proof (D2 _ _ Hl Hpc) as Hf. rewrite E in Hf.
     unfold must_wait, qlen in *. cbn. rewrite app_length. cbn. specialize (D4 Hm). lia.
-  - intros _ _. rewrite E. reflexivity.
+  - intros _. rewrite E. reflexivity.
   - (* Delete(0) on an empty list: excluded by the loop condition *)
     exfalso. pose proof (D2 _ _ Hl Hpc) as Hf. rewrite E in Hf.
     unfold must_wait, qlen in Hf. rewrite E0 in Hf. cbn in Hf. discriminate.
   - intros Hm. specialize (D4 Hm). unfold qlen in *. cbn. rewrite E0 in D4. cbn [length] in D4. lia.
-  - intros _ _. rewrite E. eauto.
+  - intros _. rewrite E. eauto.
+  - intros Hx. rewrite E in Hx. discriminate.
+  - intros _. rewrite E. eauto.
   - intros _. apply andb_true_iff in E. destruct E as [E _]. apply andb_true_iff in E.
     destruct E as [_ Ep]. apply pc_eqb_eq in Ep.
     apply (D6 _ _ Hl). rewrite Ep. reflexivity.
@@ -118,7 +116,6 @@ Proof.
 Qed.
 
 (* ---------- the channel generations ---------- *)
-Definition pending (p : lbq_pc) : bool := match p with BUnlock | BClose => true | _ => false end.
 
 Record invF (c : lbq_cfg) : Prop := {
   (* the current channel of a cond is open *)
